@@ -174,6 +174,7 @@ structure Decoded where
   data : Option Bytes
   useCandidate : Bool
   lifetime : Option Nat
+  priority : Option Nat := none          -- PRIORITY of a connectivity check (RFC 8445 §7.1.1)
 deriving DecidableEq, Repr, Inhabited
 
 inductive DecErr where
@@ -242,6 +243,10 @@ def attrStep (tx : Bytes) (d : Decoded) (typ : Nat) (value : Bytes) : Decoded :=
   else if typ = stunDecAttrLifetime then
     match value with
     | a :: b :: c :: e :: _ => { d with lifetime := some (rd32 a b c e) }
+    | _ => d
+  else if typ = stunDecAttrPriority then
+    match value with
+    | a :: b :: c :: e :: _ => { d with priority := some (rd32 a b c e) }
     | _ => d
   else if typ = stunDecAttrUseCandidate then { d with useCandidate := true }
   else d
